@@ -64,7 +64,7 @@ package aeskw
 //@   ensures [C03.kw.unwrap.blocks] (len(cipherText) < 16 || len(cipherText) % 8 != 0) ==> result1 != nil
 //@   ensures [C03.kw.unwrap.len] result1 == nil ==> (fresh(result) && len(result) == len(cipherText) - 8)
 //@   ensures [C03.kw.unwrap.integrity] result1 == nil ==> (len(defaultIV) == 8 && (forall k :: 0 <= k && k < 8 ==> areg[k] == defaultIV[k]))
-//@   at return ghost areg = lambda k :: a[k]
+//@   at call ConstantTimeCompare#0 ghost areg = lambda k :: a[k]
 //@   loop 0 invariant -1 <= rangeindex && rangeindex < len(r) && len(r) == n && fresh(r) && 0 <= n && 8 * (n + 1) <= len(cipherText) && len(cipherText) < 8 * (n + 2)
 //@   loop 0 invariant forall k :: 0 <= k && k <= rangeindex ==> (len(r[k]) == 8 && fresh(r[k]))
 //@   loop 0 decreases len(r) - rangeindex
